@@ -120,6 +120,22 @@ func supervise(c *Check, tier string, master uint64) int {
 		fmt.Print(res.out)
 		return res.code
 	}
+	if c.RetrySafe {
+		// Not a check of crash-freedom: the death of the process (typically one of the simulator's own harsher
+		// faults — a getter that panics — landing on a goroutine the code under test started) tells nothing about
+		// this property.  Run the batch once more without the fault kinds that can kill the process.
+		msg, site := crashSignature(res.out)
+		// (one worker: state that the code under test shares process-wide must not leak from one run's fake-clock
+		// bubble into another's, which the runtime punishes with a fatal error)
+		safe := runChild(c, []string{"VERIF_SAFE=1", "VERIF_WORKERS=1"}, 2*budget+15*time.Minute)
+		if !safe.timedOut && completedNormally(safe.out, c) {
+			fmt.Printf("NOTE: the first batch process died (%s at %s); the batch was repeated without the fault kinds that can kill the process\n", msg, site)
+			fmt.Print(safe.out)
+			return safe.code
+		}
+		fmt.Printf("HARNESS-ERROR: the batch process died twice (%s at %s), also without the process-killing fault kinds:\n%s\n", msg, site, tail(safe.out, 1500))
+		return ExitHarness
+	}
 	// The child died (or never finished).  Which runs were in flight?
 	started, ended := map[int]bool{}, map[int]bool{}
 	if b, err := os.ReadFile(pf.Name()); err == nil {
@@ -254,3 +270,7 @@ func replayCrash(c *Check, rf *ReplayFile, path string) int {
 	fmt.Printf("replay did not reproduce class=%s (the run's process ended with: %q)\n", rf.Class, class)
 	return ExitOK
 }
+
+// Safe reports whether fault kinds that can kill the whole process must be left out (second attempt of a
+// supervised batch).
+func Safe() bool { return os.Getenv("VERIF_SAFE") != "" }
